@@ -518,13 +518,13 @@ def _cases(ctx, facts):
             yield json.loads(f.read_text())["case"]
     big = ctx.tier == "thorough" or ctx.deep
     yield from exhaustive_derive(big)
-    for _ in range(ctx.budget(1500, 40000)):
+    for _ in range(ctx.budget(900, 40000)):
         yield gen_derive(ctx.rng, flag_class)
-    for _ in range(ctx.budget(600, 15000)):
+    for _ in range(ctx.budget(400, 15000)):
         yield gen_match(ctx.rng, flag_class)
-    for _ in range(ctx.budget(800, 20000)):
+    for _ in range(ctx.budget(500, 20000)):
         yield gen_pyfmt(ctx.rng)
-    for _ in range(ctx.budget(800, 20000)):
+    for _ in range(ctx.budget(500, 20000)):
         yield gen_printf(ctx.rng)
 
 
@@ -555,7 +555,7 @@ def lean_lines(case):
     """requests for the Lean driver for one case"""
     if case["kind"] == "derive":
         conv = conv_of(case)
-        return [json.dumps({"k": "derive", "t": conv, "i": i}) for i in case["indices"]] + ([json.dumps({"k": "printf", "t": conv, "i": i}) for i in case["indices"]] if True else [])
+        return [json.dumps({"k": "derive", "t": conv, "i": i}) for i in case["indices"]] + [json.dumps({"k": "printf", "t": conv, "i": i}) for i in case["indices"]]
     if case["kind"] == "match":
         return [json.dumps({"k": "match", "t": case["t"]})]
     if case["kind"] == "pyfmt":
